@@ -237,9 +237,6 @@ def _call(env, p, fn, *a, **kw):
 
 # ------------------------------------------------------------------ frame: the builders only read what they are given
 
-_VALUE_CELLS = 8       # a constraint with more cells than this is observed by name and scope only
-
-
 def _guard(f):
     """an observation that fails is an observation (it differs from the one taken before the call)"""
     try:
@@ -248,30 +245,36 @@ def _guard(f):
         return ("observation-raised", type(e).__name__, str(e)[:200])
 
 
-def _obs_variable(v):
-    vals = list(v.domain.values)
-    return (id(v), v.name, id(v.domain), v.domain.name, tuple(vals), v.initial_value,
-            tuple(v.cost_for_val(x) for x in vals))
+def _obs_variables(variables):
+    out = []
+    for v in variables:
+        vals = tuple(v.domain.values)
+        out.append((id(v), v.name, id(v.domain), v.domain.name, vals, v.initial_value, tuple([v.cost_for_val(x) for x in vals])))
+    return out
 
 
-def _obs_scope(c):
+def _obs_scopes(cons):
     """what a caller sees of a constraint (1): its name and its scope - the variable objects, in order"""
-    dims = list(c.dimensions)
-    return (id(c), c.name, tuple(id(v) for v in dims), tuple(v.name for v in dims))
+    out = []
+    for c in cons:
+        dims = list(c.dimensions)
+        out.append((id(c), c.name, [id(v) for v in dims], [v.name for v in dims]))
+    return out
 
 
-def _obs_values(c):
-    """what a caller sees of a constraint (2): its value on every assignment (small constraints only)"""
-    dims = list(c.dimensions)
-    names = [v.name for v in dims]
-    doms = [list(v.domain.values) for v in dims]
-    if math.prod(len(d) for d in doms) > _VALUE_CELLS:
-        return None
-    return tuple(c(**dict(zip(names, vals))) for vals in itertools.product(*doms))
+def _obs_values(cons):
+    """what a caller sees of a constraint (2): its values.  The builders have no business with them: probed on the
+    two corner assignments (every variable at its first / at its last value), which also says that the constraint
+    is still callable on its scope (the price of a path is a few calls; the relations have their own contracts)"""
+    out = []
+    for c in cons:
+        dims = list(c.dimensions)
+        out.append((c(**{v.name: v.domain.values[0] for v in dims}), c(**{v.name: v.domain.values[-1] for v in dims})))
+    return out
 
 
 def _obs_dict(d):
-    return tuple((k, id(v)) for k, v in d.items())
+    return [(k, id(v)) for k, v in d.items()]
 
 
 class _Frame:
@@ -281,16 +284,16 @@ class _Frame:
     containers, in the same order.  Private attributes are never looked at."""
 
     WHAT = dict(containers="the-lists-or-the-dcop-handed-over-hold-the-same-objects-in-the-same-order",
-                variables="variables-and-their-domains-unchanged",
                 scopes="constraints-keep-their-name-and-scope",
-                values="constraints-keep-their-value-on-every-assignment")
+                variables="variables-and-their-domains-unchanged",
+                values="constraints-keep-their-values-on-the-probed-assignments")
 
     def __init__(self, env, p, module, variables, cons, lists=None, dcop=None):
         self.env, self.p, self.module = env, p, module
         self.variables, self.cons = list(variables), list(cons)
         self.lists, self.dcop = lists, dcop
         self.small = len(self.variables) <= 40
-        self.before = self.observe(self.small)
+        self.before = self.observe(True)
 
     def build(self):
         """the call under contract, on the objects the caller holds (again and again the same ones)"""
@@ -301,21 +304,20 @@ class _Frame:
 
     def _containers(self):
         if self.lists is not None:
-            return tuple(tuple(id(x) for x in l) for l in self.lists)
+            return [[id(x) for x in l] for l in self.lists]
         d = self.dcop
         return (d.name, d.objective, _obs_dict(d.variables), _obs_dict(d.constraints), _obs_dict(d.domains),
-                _obs_dict(d.agents), _obs_dict(d.external_variables), tuple(id(v) for v in d.all_variables))
+                _obs_dict(d.agents), _obs_dict(d.external_variables), [id(v) for v in d.all_variables])
 
-    def observe(self, values):
-        o = dict(containers=_guard(self._containers),
-                 variables=_guard(lambda: tuple(_obs_variable(v) for v in self.variables)),
-                 scopes=_guard(lambda: tuple(_obs_scope(c) for c in self.cons)))
-        if values:
-            o["values"] = _guard(lambda: tuple(_obs_values(c) for c in self.cons))
+    def observe(self, full):
+        o = dict(containers=_guard(self._containers), scopes=_guard(lambda: _obs_scopes(self.cons)))
+        if full:
+            o["variables"] = _guard(lambda: _obs_variables(self.variables))
+            o["values"] = _guard(lambda: _obs_values(self.cons))
         return o
 
-    def check(self, prove, area, info, values=False, when=""):
-        after = self.observe(values and self.small)
+    def check(self, prove, area, info, full=False, when=""):
+        after = self.observe(full)
         for key, a in after.items():
             b = self.before[key]
             prove("%s.frame.%s%s" % (area, self.WHAT[key], when), a == b,
@@ -337,11 +339,11 @@ def _scribble(g):
 
 def _frame_epilogue(env, prove, area, fr, g, info, second=None):
     """the frame obligations of the four builders, stated after the obligations of the property:
-      1. the inputs are as they were before the call (containers, variables, names and scopes of the constraints);
+      1. the inputs are as they were before the call (the containers, the names and scopes of the constraints);
       2. (small problems) a second graph built from the very same objects satisfies `second` (the same oracle as
          the first one) - a builder that consumed / marked its inputs gives a wrong second graph;
       3. writing into the lists published by the returned graph(s) does not reach the inputs: observed once more,
-         this time with the value of every (small) constraint on every assignment."""
+         this time with the variables / domains and the values of the constraints (probed)."""
     fr.check(prove, area, info)
     graphs = [g]
     if second is not None and fr.small:
@@ -353,7 +355,7 @@ def _frame_epilogue(env, prove, area, fr, g, info, second=None):
             graphs.append(g2)
     for x in graphs:
         _guard(lambda: _scribble(x))
-    fr.check(prove, area, info, values=True, when="-after-a-second-build-and-writing-into-the-returned-graphs")
+    fr.check(prove, area, info, full=True, when="-after-a-second-build-and-writing-into-the-returned-graphs")
 
 
 # ------------------------------------------------------------------ oracle (from the scope list only)
